@@ -52,22 +52,27 @@ def r20_2(rep, M, rid):
         fl = Flow(fn)
         cfg = fl.cfg
         wraps = []
+        # the array whose entries may be changed: the returned fractional array (to_scaled) / the scaled input (to_cartesian)
+        rets = [r for r in ast.walk(fn) if isinstance(r, ast.Return) and r.value is not None]
+        arrays = set()
+        for r in rets:
+            sl = fl.slice(r.value, fl.node_of(r))
+            arrays |= {x.id for e in sl["exprs"] for x in ast.walk(e) if isinstance(x, ast.Name)}
         for n, d in cfg.g.nodes(data=True):
             s = d["ast"]
-            if isinstance(s, ast.AugAssign) and isinstance(s.op, ast.Mod):
-                wraps.append((n, s, s.target))
-            elif isinstance(s, ast.Assign):
-                for sub in ast.walk(s.value):
-                    if (isinstance(sub, ast.BinOp) and isinstance(sub.op, ast.Mod)) or (
-                            isinstance(sub, ast.Call) and resolver(M, fq)(sub.func) in
-                            ("numpy.mod", "numpy.remainder", "numpy.fmod", "numpy.floor")):
-                        wraps.append((n, s, s.targets[0]))
-                        break
+            if isinstance(s, (ast.AugAssign, ast.Assign)):
+                tgts = [s.target] if isinstance(s, ast.AugAssign) else s.targets
+                for tgt in tgts:
+                    if isinstance(tgt, ast.Subscript) and isinstance(tgt.value, ast.Name) and tgt.value.id in arrays:
+                        # stores that only reshape (positions[None, :]) are assignments to the Name, not subscript stores
+                        wraps.append((n, s, tgt))
             elif isinstance(s, ast.Expr) and isinstance(s.value, ast.Call) and resolver(M, fq)(s.value.func) in (
-                    "numpy.mod", "numpy.remainder") and any(k.arg == "out" for k in s.value.keywords):
-                wraps.append((n, s, next(k.value for k in s.value.keywords if k.arg == "out")))
+                    "numpy.mod", "numpy.remainder", "numpy.put", "numpy.place", "numpy.putmask") and (
+                    any(k.arg == "out" for k in s.value.keywords) or resolver(M, fq)(s.value.func).split(".")[-1] in ("put", "place", "putmask")):
+                tgt = next((k.value for k in s.value.keywords if k.arg == "out"), s.value.args[0] if s.value.args else None)
+                wraps.append((n, s, tgt))
         if not wraps:
-            raise AnalysisError(f"{name}: no wrapping statement (modulo) found")
+            raise AnalysisError(f"{name}: no statement that modifies the coordinates (wrapping) found")
         for n, s, tgt in wraps:
             conds = cfg.branch_conditions(n)
             construct = f"{name}: `{norm(s)}`"
@@ -362,6 +367,100 @@ def r20_7(rep, M, rid):
                       f"{orelse_mass}; periodic branch mass weighted: {body_mass}", M.where(fq))
 
 
+# ----------------------------------------------------------------------------- units: fractional vs length
+def unit_of(M, fq, fl, e, at, depth=0):
+    """'frac' (scaled coordinate), 'len' (cartesian length / vector), 'num' (pure number), None (unknown)"""
+    if depth > 8:
+        return None
+    if isinstance(e, ast.Constant) and isinstance(e.value, (int, float)):
+        return "num"
+    if isinstance(e, ast.Name):
+        if fl.cfg.entry in fl.rd[at].get(e.id, ()) and e.id in ("min_size",):
+            return "len"
+        us = set()
+        for d in fl.rd[at].get(e.id, ()):
+            if d == fl.cfg.entry:
+                return None
+            for kind, *rest in fl.def_value(d, e.id):
+                if kind != "expr":
+                    return None
+                us.add(unit_of(M, fq, fl, rest[0], d, depth + 1))
+        return us.pop() if len(us) == 1 else None
+    if isinstance(e, ast.Subscript):
+        return unit_of(M, fq, fl, e.value, at, depth + 1)
+    if isinstance(e, ast.Call):
+        f = e.func
+        if isinstance(f, ast.Attribute) and f.attr == "get_scaled_positions":
+            return "frac"
+        if isinstance(f, ast.Attribute) and f.attr in ("get_cell", "get_positions"):
+            return "len"
+        name = M.ext_name(fq, f)
+        if name == "numpy.linalg.norm":
+            return unit_of(M, fq, fl, e.args[0], at, depth + 1)
+        if name in ("numpy.zeros", "numpy.ones"):
+            return None
+        if name in ("numpy.array", "numpy.asarray", "numpy.abs", "numpy.max", "numpy.min", "numpy.amax", "numpy.amin", "numpy.ptp") and e.args:
+            return unit_of(M, fq, fl, e.args[0], at, depth + 1)
+        callees = M.callees_of_call(fq, e)
+        if GEO + ".to_cartesian" in callees:
+            return "len"
+        if GEO + ".to_scaled" in callees:
+            return "frac"
+        if GEO + ".get_thickness" in callees:
+            return "len"
+        if isinstance(f, ast.Attribute) and f.attr in ("max", "min", "ptp", "copy") and not e.args:
+            return unit_of(M, fq, fl, f.value, at, depth + 1)
+        return None
+    if isinstance(e, ast.UnaryOp):
+        return unit_of(M, fq, fl, e.operand, at, depth + 1)
+    if isinstance(e, ast.BinOp):
+        a, b = unit_of(M, fq, fl, e.left, at, depth + 1), unit_of(M, fq, fl, e.right, at, depth + 1)
+        if isinstance(e.op, (ast.Add, ast.Sub)):
+            if a == b:
+                return a
+            if "num" in (a, b):
+                return a if b == "num" else b
+            return None
+        if isinstance(e.op, ast.Mult):
+            if {a, b} == {"frac", "len"}:
+                return "len"
+            if "num" in (a, b):
+                return a if b == "num" else b
+            return None
+        if isinstance(e.op, ast.Div):
+            if a == b and a in ("len", "frac"):
+                return "num" if a == "frac" else "num"
+            if b == "num":
+                return a
+            if a == "len" and b == "len":
+                return "num"
+            return None
+    return None
+
+
+def r20_units(rep, M, rid):
+    """the atomic extent compared with min_size (a length in angstrom) must itself be a length"""
+    fq = GEO + ".get_minimized_cell"
+    fn = M.func(fq)
+    fl = Flow(fn)
+    ms = M.params(fq)[2]
+    tests = [t for t in ast.walk(fn) if isinstance(t, ast.If) and isinstance(t.test, ast.Compare) and ms in {x.id for x in ast.walk(t.test) if isinstance(x, ast.Name)}]
+    if not tests:
+        raise AnalysisError("get_minimized_cell: comparison with min_size not found")
+    for t in tests:
+        at = fl.node_of(t)
+        other = t.test.left if norm(t.test.comparators[0]) == ms else t.test.comparators[0]
+        u = unit_of(M, fq, fl, other, at)
+        if u == "len":
+            rep.ok(rid, f"get_minimized_cell: `{norm(other)}` compared with `{ms}` is a cartesian length")
+        elif u == "frac":
+            rep.violation(rid, f"get_minimized_cell: `{norm(t.test)}`", f"`{norm(other)}` is a *fractional* extent but `{ms}` is a length in angstrom: in the 2D "
+                          "pipeline the cell is much longer than the layer, the fractional extent is always < 1, so the cell is always inflated to "
+                          "min_size and thicker layers end up outside it", M.where(fq, t))
+        else:
+            raise AnalysisError(f"get_minimized_cell: unit of `{norm(other)}` could not be inferred")
+
+
 # ----------------------------------------------------------------------------- R20.6 complete_cell / inertia
 def r20_6(rep, M, rid):
     fq = GEO + ".complete_cell"
@@ -431,6 +530,8 @@ def run(rep, ctx):
         r20_6(rep, M, "R20.6")
     with rep.guard("R20.7"):
         r20_7(rep, M, "R20.7")
+    with rep.guard("R20.4"):
+        r20_units(rep, M, "R20.4")
     rep.floor("R20.7", 3)
     rep.floor("R20.2", 4)
     rep.floor("R20.3", 5)
